@@ -139,6 +139,7 @@ func rulesC20(c *Ctx) {
 			construct := tname + "." + fld.Name()
 			// calls X.Accept(visitor) with X derived from this field of the receiver
 			var sites []ssa.CallInstruction
+			viaCollection := false
 			for _, call := range callsIn(fn) {
 				cc := call.Common()
 				var recvV ssa.Value
@@ -160,6 +161,10 @@ func rulesC20(c *Ctx) {
 				}
 				if derivesFromRecvField(recvV, recv, fld, 0) {
 					sites = append(sites, call)
+				} else if childViaLocalCollection(recvV, recv, fld) {
+					// the children are gathered into a local array/slice literal and forwarded to in a loop
+					sites = append(sites, call)
+					viaCollection = true
 				}
 			}
 			if len(sites) == 0 {
@@ -174,7 +179,7 @@ func rulesC20(c *Ctx) {
 				}
 				return false
 			}
-			if isSlice {
+			if isSlice || viaCollection {
 				// must be in a loop that ranges over the whole field and exits only at the header
 				ok := false
 				why := "the forwarding call is not inside a loop over the slice"
@@ -464,7 +469,16 @@ func ruleC20Leaf(c *Ctx, nts []nodeType) {
 				return false
 			}
 			f, base := loadedField(call.Common().Args[0])
-			return sameVar(f, nameField) && base == ssa.Value(fn.Params[0])
+			if sameVar(f, nameField) && base == ssa.Value(fn.Params[0]) {
+				return true
+			}
+			// ... or through the node's own Symbol() accessor (which returns that field)
+			if k, isCall := call.Common().Args[0].(*ssa.Call); isCall && !k.Call.IsInvoke() {
+				if sc := k.Call.StaticCallee(); sc != nil && (sc == symFn || sc.Origin() == symFn) && len(k.Call.Args) == 1 && k.Call.Args[0] == ssa.Value(fn.Params[0]) {
+					return true
+				}
+			}
+			return false
 		}
 		ri := reachWithout(fn, isVS)
 		ok := true
@@ -633,7 +647,83 @@ func ruleC20Validator(c *Ctx) {
 	c.Analysed(FnName(fn))
 	errFld := p.Field("boltz", "publicSymbolValidator", "err")
 	isPublic := p.Method("boltz", "Store", "IsPublicSymbol")
+	_ = isPublic
 	fi := ComputeFacts(fn)
+	// the visibility test on the visited symbol: IsPublicSymbol(symbol) asked of the store directly, of a
+	// narrower interface, or through a function-typed field that only ever holds closures doing exactly that
+	var asksVisibility func(f *ssa.Function) bool
+	asksVisibility = func(f *ssa.Function) bool {
+		if f == nil || f.Blocks == nil || len(f.Params) == 0 {
+			return false
+		}
+		rets := returnsOf(f)
+		if len(rets) == 0 {
+			return false
+		}
+		for _, r := range rets {
+			if len(r.Results) != 1 {
+				return false
+			}
+			k, isCall := r.Results[0].(*ssa.Call)
+			if !isCall || !invokeNamed(k, "IsPublicSymbol") {
+				return false
+			}
+			args := k.Call.Args
+			if len(args) == 0 {
+				return false
+			}
+			if _, isPrm := args[len(args)-1].(*ssa.Parameter); !isPrm {
+				return false
+			}
+		}
+		return true
+	}
+	isPublicTest := func(in ssa.Instruction) bool {
+		call, ok := in.(*ssa.Call)
+		if !ok {
+			return false
+		}
+		args := call.Call.Args
+		if len(args) == 0 || args[len(args)-1] != ssa.Value(fn.Params[1]) {
+			return false
+		}
+		if invokeNamed(call, "IsPublicSymbol") {
+			return true
+		}
+		if call.Call.IsInvoke() || call.Call.StaticCallee() != nil {
+			return false
+		}
+		fld, base := loadedField(call.Call.Value)
+		if fld == nil || base != ssa.Value(fn.Params[0]) {
+			return false
+		}
+		n := 0
+		for _, w := range c.prodFuncs("boltz") {
+			for _, b := range w.Blocks {
+				for _, wi := range b.Instrs {
+					st, isSt := wi.(*ssa.Store)
+					if !isSt {
+						continue
+					}
+					if wf, _ := fieldOfAddr(st.Addr); !sameVar(wf, fld) {
+						continue
+					}
+					n++
+					var target *ssa.Function
+					switch v := st.Val.(type) {
+					case *ssa.MakeClosure:
+						target, _ = v.Fn.(*ssa.Function)
+					case *ssa.Function:
+						target = v
+					}
+					if !asksVisibility(target) {
+						return false
+					}
+				}
+			}
+		}
+		return n > 0
+	}
 	// a store to .err exists, under: IsPublicSymbol(symbol) false and err == nil
 	found, guarded := false, false
 	for _, b := range fn.Blocks {
@@ -649,7 +739,7 @@ func ruleC20Validator(c *Ctx) {
 						return false
 					}
 					call, ok := ft.V.(*ssa.Call)
-					return ok && isCallTo(call, isPublic) && len(call.Call.Args) == 1 && call.Call.Args[0] == ssa.Value(fn.Params[1])
+					return ok && isPublicTest(call)
 				})
 				first := fi.HoldsWhere(b, func(ft Fact) bool {
 					if ft.Kind != "nonnil" || ft.Pol {
@@ -675,7 +765,7 @@ func ruleC20Validator(c *Ctx) {
 		guarded = noPathAvoiding(fn, isErrStore, func(from, to *ssa.BasicBlock) bool {
 			for ft := range fi.edgeFacts(from, to) {
 				if ft.Kind == "true" && ft.Pol {
-					if k, isCall := ft.V.(*ssa.Call); isCall && isCallTo(k, isPublic) {
+					if k, isCall := ft.V.(*ssa.Call); isCall && isPublicTest(k) {
 						return true
 					}
 				}
@@ -691,7 +781,7 @@ func ruleC20Validator(c *Ctx) {
 	c.Check(found && guarded, "C20.VALIDATOR", "boltz.publicSymbolValidator.VisitSymbol: latch", p.Pos(fn.Pos()),
 		"records an error exactly when IsPublicSymbol(symbol) is false, keeping the first error", "the validator does not record an error under !IsPublicSymbol(symbol) && err == nil")
 	// the rejecting path must be reachable whenever the symbol is not public: no return before the test
-	early := !noPathAvoiding(fn, func(in ssa.Instruction) bool { return isCallTo(in, isPublic) }, func(from, to *ssa.BasicBlock) bool {
+	early := !noPathAvoiding(fn, isPublicTest, func(from, to *ssa.BasicBlock) bool {
 		for ft := range fi.edgeFacts(from, to) {
 			if ft.Kind == "nonnil" && ft.Pol {
 				if ff, _ := loadedField(ft.V); sameVar(ff, errFld) {
@@ -876,6 +966,52 @@ func isFirstSegmentOf(v ssa.Value, name ssa.Value) bool {
 		if x.X == name && x.Low == nil {
 			if call, ok := x.High.(*ssa.Call); ok {
 				return isDotSplit(call, "Index", "IndexByte", "IndexRune")
+			}
+		}
+	}
+	return false
+}
+
+// childViaLocalCollection: v is an element read from a local array/slice literal one of whose slots was
+// filled with the receiver's field fld (children gathered into []Node{...} and visited in a loop).
+func childViaLocalCollection(v ssa.Value, recv ssa.Value, fld *types.Var) bool {
+	var arr *ssa.Alloc
+	switch e := v.(type) {
+	case *ssa.Index:
+		// an element of a copy of a local array (range over an array value)
+		if ld, ok := e.X.(*ssa.UnOp); ok {
+			arr, _ = ld.X.(*ssa.Alloc)
+		}
+	case *ssa.UnOp:
+		ia, ok := e.X.(*ssa.IndexAddr)
+		if !ok {
+			return false
+		}
+		// the collection: a local array, or a slice of one
+		switch x := ia.X.(type) {
+		case *ssa.Alloc:
+			arr = x
+		case *ssa.Slice:
+			arr, _ = x.X.(*ssa.Alloc)
+		}
+	}
+	if arr == nil {
+		return false
+	}
+	if _, isArr := derefType(arr.Type()).Underlying().(*types.Array); !isArr {
+		return false
+	}
+	for _, r := range *arr.Referrers() {
+		slot, isIA := r.(*ssa.IndexAddr)
+		if !isIA {
+			continue
+		}
+		if _, constIdx := slot.Index.(*ssa.Const); !constIdx {
+			continue
+		}
+		for _, sr := range *slot.Referrers() {
+			if st, isSt := sr.(*ssa.Store); isSt && st.Addr == ssa.Value(slot) && derivesFromRecvField(st.Val, recv, fld, 0) {
+				return true
 			}
 		}
 	}
